@@ -23,8 +23,10 @@ ASSUMPTIONS = [
     "documented modelling conventions shared by reference and halmos: no gas (memory beyond MAX_MEMORY_SIZE is out-of-gas), CREATE addresses from halmos' counter scheme, balances <= 2^128, hash injectivity witnesses (f_inv_sha3_*) taken as satisfiable",
     "the reference interpreter Spec/Evm.v is my reading of the Yellow Paper / execution-specs for the supported subset (no second EVM implementation exists in the sandbox)",
 ]
-PARTIAL = ("The Coq theorem covers the exploration skeleton over the call-free instruction subset with semantic terms (term building itself is C06, byte sequences C07, storage decoding C08, calls C09); "
-           "calls, creations, logs, copies and the remaining instructions are covered by the correspondence run only.")
+PARTIAL = ("The Coq theorems cover the exploration skeleton of the mini-SEVM (local instructions, JUMPI branching, CALL / CALLCODE / DELEGATECALL / STATICCALL / CREATE over a symbolic world, "
+           "insufficient-funds fork), the other branch points taken one at a time (aliases, symbolic JUMP, vm.assert*, vm.addr) and the dispatch table; "
+           "term building itself is C06, byte sequences C07, storage decoding C08; logs, copies, MSIZE, EXT*, CREATE2, precompiles, cheatcode addresses and the composition of a symbolic call target "
+           "with the call machinery are covered by the correspondence run only.")
 
 
 def sig_of(desc, fail):
@@ -109,7 +111,13 @@ def run(rep, tier):
         trusted_base=common.TRUSTED_BASE_COMMON,
         assumptions=ASSUMPTIONS,
         partial=PARTIAL,
-        rule="cases = assembled programs from a grammar (profiles: straight-line arithmetic, branching, memory, storage, hashing, logs, loops, calls into a pool of callees, creations) run through the real SEVM with symbolic inputs; per program: concrete inputs = z3 models of every reported path + perturbations to boundary values + random; every (path, input) pair whose constraints hold is compared with the reference interpreter (end kind, return data, storage read back through halmos' own sload for every written location spelling, balances, code). A case is non-trivial when it has >1 path or at least one evaluated (path, input) pair; distinct by program hash",
+        rule="cases = the regression corpus (one hand-written program per mechanism a seeded change or a repaired defect needed) followed by assembled programs from a grammar (profiles: straight-line arithmetic, "
+             "operation grids over boundary / dirty / Bool-typed operands, branching, correlated branches, memory, storage, hashing incl. array-overflow conditions, logs, loops with concrete and input-dependent observable trip counts, "
+             "stack shuffles, calls into a pool of callees with several failing paths, value-bearing and self calls, symbolic call targets, creations with constructors that read their context or revert with data) "
+             "run through the real SEVM with symbolic inputs; per program: concrete inputs = z3 models of every reported path + perturbations to boundary values + dictionary values (PUSH immediates, existing addresses clean and dirty) + "
+             "hash-relative values + random; every (path, input) pair whose constraints hold is compared with the reference interpreter (end kind, return data, storage read back through halmos' own sload for every written location spelling, "
+             "balances, code, event logs); inputs violating a documented assumption (total balance > 2^128, a keccak-based storage location wrapping around 2^256) are left out. A case is non-trivial when it has >1 path or at least one "
+             "evaluated (path, input) pair; distinct by program hash",
     )
 
 
